@@ -64,6 +64,7 @@ type mockConn struct {
 	written  []byte // bytes accepted during the current op
 	attempt  []byte // bytes offered to Write during the current op (accepted or not)
 	react    func(c *mockConn)
+	dlRemain int64 // ms left of the timeout when the last read deadline was armed (-1: none)
 }
 
 func (c *mockConn) Read(p []byte) (int, error) {
@@ -95,6 +96,12 @@ func (c *mockConn) Write(b []byte) (int, error) {
 		return 0, net.ErrClosed
 	}
 	f := c.fault
+	if strings.HasPrefix(f, "D") {
+		// a slow connection: the write takes this many milliseconds, then accepts everything
+		time.Sleep(time.Duration(atoi64(f[1:])) * time.Millisecond)
+		f = "-"
+		c.fault = "-"
+	}
 	if !strings.HasPrefix(f, "S") {
 		c.fault = "-" // one-shot faults; "S<k>" stays: a connection that takes at most k bytes per call, without error
 	}
@@ -135,6 +142,10 @@ func (c *mockConn) SetWriteDeadline(t time.Time) error { return nil }
 func (c *mockConn) SetReadDeadline(t time.Time) error {
 	c.w.ev(fmt.Sprintf("dl%d", c.id))
 	c.deadline = !t.IsZero()
+	if !t.IsZero() {
+		// how much of the configured timeout is left at the moment the deadline is armed
+		c.dlRemain = int64(time.Until(t) / time.Millisecond)
+	}
 	return nil
 }
 
@@ -478,6 +489,7 @@ func (t *tcpRun) execSend(op *ttree, name string) string {
 			pre = append(pre, f...)
 		}
 		cn.readEnd, cn.fault, cn.written, cn.deadline = "eof", fault, nil, false
+		cn.dlRemain = -1
 		if respMode == "sil" {
 			cn.readEnd = "sil"
 		}
@@ -576,6 +588,9 @@ func (t *tcpRun) execSend(op *ttree, name string) string {
 	}
 	if chunkOf != nil {
 		x = append(x, "chunk", hx([]byte(chunkOf())))
+	}
+	if cn != nil && cn.dlRemain >= 0 {
+		x = append(x, "dlms", fmt.Sprint(cn.dlRemain))
 	}
 	x = append(x, "resp", hx(resp), "pre", hx(pre), "t0", fmt.Sprint(t0.Unix()), "t0n", fmt.Sprint(t0.UnixNano()), "t1n", fmt.Sprint(t1.UnixNano()))
 	if name == "HLP" && cn != nil && strings.Contains(op.kids[0].atom, "Compressed") {
